@@ -14,6 +14,9 @@ necessary condition of the property:
               synthesis X', Y', Z' (closed-form P(n,m) up to n = 3) and the geocentric->geodetic rotation;
               the recursion constant k[m, n] is the report's ((n-1)^2 - m^2)/((2n-1)(2n-3)) symbolically in n, m.
 Not decided: degrees 4..12 beyond what loop uniformity implies, floating-point accuracy, the polar special case.
+Added after the seeding rounds (DESIGN.md 6.6-6.8):
+ RELOAD / TABLE.select / TABLE.date / SYNTHESIS.enu / CTOR-ROUTE / ELEMENTS  the model file is selected on the unrounded decimal year, which is float(date) or
+            year + yday/365; the ENU components are (Y, X, -Z) of the NED synthesis; constructor and method agree.
 """
 import ast
 import os
